@@ -82,6 +82,19 @@ pub fn dump_types<'tcx>(tcx: TyCtxt<'tcx>, krate: &str, out: &mut Vec<u8>) {
                     ("discrs", arr(&discrs)),
                 ]));
             }
+            DefKind::Trait => {
+                // can the trait be implemented outside the crate?  (closed world for return summaries of its methods)
+                let reachable = did.as_local().map(|ld| tcx.effective_visibilities(()).is_reachable(ld)).unwrap_or(true);
+                let l = loc_of(tcx, tcx.def_span(did));
+                push(obj(&[
+                    ("k", "\"trait\"".into()),
+                    ("crate", s(krate)),
+                    ("path", s(&path_of(tcx, did))),
+                    ("reachable", b(reachable)),
+                    ("file", s(&l.file)),
+                    ("line", l.line.to_string()),
+                ]));
+            }
             DefKind::Static { mutability, .. } => {
                 let t = tcx.type_of(did).instantiate_identity().skip_norm_wip();
                 let env = TypingEnv::fully_monomorphized();
